@@ -80,9 +80,19 @@ def make_frag(item, mod):
     return frag
 
 
+def OBJ(cls, **attrs):
+    """A receiver for calling a real method as `Cls.method(OBJ(Cls, attr=value, ...), ...)`: an instance
+    (made without __init__) of a throw-away subclass of the REAL class carrying the given attributes, so
+    that the method can also reach the other methods of its class (a refactoring may move code into one)."""
+    try:
+        return object.__new__(type(cls)("_Live" + cls.__name__, (cls,), dict(attrs)))
+    except Exception:  # noqa: metaclass / slots that refuse this: plain namespace
+        return types.SimpleNamespace(**attrs)
+
+
 def run_item(item):
     mod = module_of(item["path"])
-    ns = {"NS": types.SimpleNamespace, "MOD": mod}
+    ns = {"NS": types.SimpleNamespace, "MOD": mod, "OBJ": OBJ}
     try:
         ns["FRAG"] = make_frag(item, mod)
     except pyfun.Unsupported as e:
